@@ -569,9 +569,13 @@ def run_function(cfg, fn, args, funcs=None, env=None):
     """the value `fn` returns for the closed arguments `args`, by constant propagation through its CFG.  Raises
     NotClosedTest when a test cannot be decided and A.NotClosed when the outcome is not a single closed value."""
     params = [a.arg for a in fn.args.args]
+    env0 = dict(env or {})
+    if fn.args.vararg is not None:
+        # def f(a, *rest): the surplus positional arguments are the tuple `rest`
+        env0[fn.args.vararg.arg] = tuple(tuple(v) if isinstance(v, list) else v for v in args[len(params):])
+        args = list(args[:len(params)])
     if len(args) > len(params):
         raise A.NotClosed('arity')
-    env0 = dict(env or {})
     nd_ = len(fn.args.defaults)
     for i, p_ in enumerate(params):
         if i < len(args):
